@@ -223,6 +223,20 @@ func cmdCheck(args []string) int {
 
 	progs := map[string]*Program{}
 	var results []oblResult
+	// thorough: the whole check has a wall budget (VERIF_THOROUGH_BUDGET_MIN, default 100 minutes). The boxes of the
+	// obligations still to run shrink to an equal share of what is left (never below 60 s); a shortened box is
+	// reported like any other truncation.
+	budgetMin, _ := strconv.Atoi(os.Getenv("VERIF_THOROUGH_BUDGET_MIN"))
+	if budgetMin <= 0 {
+		budgetMin = 100
+	}
+	selected := 0
+	for _, o := range spec.Obligations {
+		if tierMatch(o, *tier) && (*only == "" || strings.Contains(o.Harness, *only)) {
+			selected++
+		}
+	}
+	done := 0
 	for _, o := range spec.Obligations {
 		if !tierMatch(o, *tier) {
 			continue
@@ -230,6 +244,7 @@ func cmdCheck(args []string) int {
 		if *only != "" && !strings.Contains(o.Harness, *only) {
 			continue
 		}
+		done++
 		r := oblResult{Obl: o}
 		p, ok := progs[o.Pkg]
 		if !ok {
@@ -309,6 +324,13 @@ func cmdCheck(args []string) int {
 			}
 			if d > 1200 {
 				d = 1200
+			}
+			left := time.Duration(budgetMin)*time.Minute - time.Since(t0)
+			if share := int(left.Seconds()) / (selected - done + 1); share < d {
+				d = share
+				if d < 60 {
+					d = 60
+				}
 			}
 			opts.Deadline = time.Duration(d) * time.Second
 		}
